@@ -103,6 +103,13 @@ def coq_make(targets=None):
 
 def build_runner():
     """Extract the model and compile the OCaml runner; cached by content hash of its inputs."""
+    import fcntl
+    with open(os.path.join(COQ, ".build.lock"), "w") as lk:
+        fcntl.flock(lk, fcntl.LOCK_EX)
+        return _build_runner()
+
+
+def _build_runner():
     gen = os.path.join(OCAML, "gen")
     os.makedirs(gen, exist_ok=True)
     srcs = [p for p in coq_sources() if "/Proofs/" not in p and "/Properties/" not in p and "/Refuted/" not in p
@@ -351,11 +358,15 @@ def check_proofs(pid, tier="quick"):
         if pins.get(fname[:-2]) != norm:
             res["problems"].append(f"statement pin mismatch for {fname} (coq/pins.json)")
         # build dependencies, then compile the property file itself to capture Print Assumptions
-        ok, out = coq_make([f"theories/Properties/{fname}o"])
+        # (one build at a time per checkout: two checks running side by side would otherwise write the same .vo files)
+        import fcntl
+        with open(os.path.join(COQ, ".build.lock"), "w") as lk:
+            fcntl.flock(lk, fcntl.LOCK_EX)
+            ok, out = coq_make([f"theories/Properties/{fname}o"])
+            p = run_cmd(["timeout", "900", "coqc", "-Q", "theories", "DV", f"theories/Properties/{fname}"], cwd=COQ, check=False) if ok else None
         if not ok:
             res["problems"].append(f"proof obligations of {fname} do not build: " + out[-1500:])
             continue
-        p = run_cmd(["timeout", "900", "coqc", "-Q", "theories", "DV", f"theories/Properties/{fname}"], cwd=COQ, check=False)
         if p.returncode != 0:
             res["problems"].append(f"{fname} does not compile: " + p.stdout[-1500:])
             continue
